@@ -55,6 +55,9 @@ def cases(tier):
                     continue
                 out.append(dict(mode=mode, alter=alt, n=n))
         # one BCB over two targets (payload and an extension block): a failure of either target fails the bundle
+        # the plaintext is an administrative record held in parsed form (as the agent builds its status reports)
+        out.append(dict(mode=mode, alter='none', n=4, admin=1))
+        out.append(dict(mode=mode, alter='ciphertext-octet', n=4, admin=1))
         two = ('none', 'ciphertext-octet', 'second-ciphertext-octet', 'lifetime')
         if tier != 'quick':
             two = [a for a in ALTER if a != 'unrelated-block'] + ['second-ciphertext-octet'] + (['wrapped-key'] if mode == 'wrap' else [])
@@ -121,11 +124,20 @@ def harness(case, tier):
     life = c.sym_int('lifetime', 2 ** 32, 2 ** 40)
     ts = c.sym_int('dtntime', 2 ** 32, 2 ** 39)
     ctr = BundleContainer()
-    ctr.bundle.primary = PrimaryBlock(bundle_flags=0, destination='dtn://dst/app', source='dtn://src/app', report_to='dtn:none',
+    admin_blk = None
+    if case.get('admin'):
+        from bp.encoding import AdminRecord, StatusReport, StatusInfoArray, StatusInfo
+        t1 = c.sym_int('plain_time', 2 ** 32, 2 ** 39)
+        sr = StatusReport(status=StatusInfoArray(received=StatusInfo(status=True, at=t1), forwarded=StatusInfo(status=False),
+                                                 delivered=StatusInfo(status=False), deleted=StatusInfo(status=False)),
+                          reason_code=0, subj_source='dtn://src/app', subj_ts=Timestamp(dtntime=ts, seqno=7))
+        admin_blk = CanonicalBlock(type_code=1, block_num=1, crc_type=2) / AdminRecord() / sr
+        data = rfc9171.enc([1, [[[True, t1], [False], [False], [False]], 0, [1, '//src/app'], [ts, 7]]])
+    ctr.bundle.primary = PrimaryBlock(bundle_flags=2 if case.get('admin') else 0, destination='dtn://dst/app', source='dtn://src/app', report_to='dtn:none',
                                       create_ts=Timestamp(dtntime=ts, seqno=3), lifetime=life, crc_type=2)
     other = c.sym_bytes('plain_other' if case.get('targets') == 2 else 'other', 2)
     ctr.bundle.blocks = [CanonicalBlock(type_code=192, block_num=4, crc_type=0, btsd=other),
-                         CanonicalBlock(type_code=1, block_num=1, crc_type=2, btsd=data)]
+                         admin_blk if admin_blk is not None else CanonicalBlock(type_code=1, block_num=1, crc_type=2, btsd=data)]
     err = s.send(ctr)
     c.prove(err is None and len(s.sent) == 1, 'source-sends-protected-bundle', detail=dict(err=repr(err), n=len(s.sent)))
     if len(s.sent) != 1:
@@ -193,7 +205,9 @@ def harness(case, tier):
         return v
     if alt == 'ciphertext-octet':
         items = list(bytes(pay['data'])) if not isinstance(pay['data'], SBuf) else list(SBuf.of(pay['data'])[0].items)
-        i = c.choose(min(len(items), 6), 'octet')
+        # (for an administrative-record bundle the receiver's decoder looks at the leading octets of the payload
+        #  while they are still ciphertext: those stay concrete, a later octet is altered)
+        i = 9 + c.choose(3, 'octet') if case.get('admin') else c.choose(min(len(items), 6), 'octet')
         items[i] = other_value('newoctet', items[i], 0, 255)
         pay['data'] = SBuf.mk([Lit(items)])
     elif alt == 'second-ciphertext-octet':
